@@ -422,10 +422,7 @@ impl<'a, W: Write> Writer<'a, W> {
 
         num_bytes += self.append_raw(&num_values.try_into()?, &Schema::Long)?
             + self.append_raw(&stream_len.try_into()?, &Schema::Long)?
-            + self
-                .writer
-                .write(self.buffer.as_ref())
-                .map_err(Details::WriteBytes)?
+            + self.append_buffer()?
             + self.append_marker()?;
 
         self.buffer.clear();
@@ -481,8 +478,17 @@ impl<'a, W: Write> Writer<'a, W> {
         // using .writer.write directly to avoid mutable borrow of self
         // with ref borrowing of self.marker
         self.writer
-            .write(&self.marker)
-            .map_err(|e| Details::WriteMarker(e).into())
+            .write_all(&self.marker)
+            .map_err(Details::WriteMarker)?;
+        Ok(self.marker.len())
+    }
+
+    /// Write the (compressed) pending block buffer to the payload.
+    fn append_buffer(&mut self) -> AvroResult<usize> {
+        self.writer
+            .write_all(self.buffer.as_ref())
+            .map_err(Details::WriteBytes)?;
+        Ok(self.buffer.len())
     }
 
     /// Append a raw Avro Value to the payload avoiding to encode it again.
@@ -493,8 +499,9 @@ impl<'a, W: Write> Writer<'a, W> {
     /// Append pure bytes to the payload.
     fn append_bytes(&mut self, bytes: &[u8]) -> AvroResult<usize> {
         self.writer
-            .write(bytes)
-            .map_err(|e| Details::WriteBytes(e).into())
+            .write_all(bytes)
+            .map_err(Details::WriteBytes)?;
+        Ok(bytes.len())
     }
 
     /// Adds custom metadata to the file.
